@@ -38,3 +38,21 @@ prop(
     level_note="Trusted: Lean kernel; the mock allocator and lab. 'Never allocates' is observed (no extra inner call, re-entrancy depth <= 1), not proved; the macOS pthread-key path is not compiled on this platform.",
     assumptions=["Linux thread_local! path only (macOS path not compiled here)"],
 )
+
+prop(
+    "C18",
+    ["DivanModel.Props.C18"],
+    [lab("fmt", 20000, 2000000)],
+    level_text="Theorems for every picosecond value (unbounded Nat, so all of u128): the unit is the largest not exceeding the value (ns below 1 ns), and the printed number equals floor(value*10^k/unit)/10^k with k = max(0, 4-d), trailing zeros removed (fmt_eq_spec: the code's integer pre-scaling by 10^4 followed by format_f64's string surgery equals the truthful truncation). format_f64 is modelled as a function on the decimal text Rust produced and proved to be pure truncation (formatDecimal_is_truncation) with no trailing zero left. Sizes/throughputs: scale selection and truncation are modelled; the two f64 operations are checked per case against exact rationals (relative 2^-48).",
+    level_note="Trusted: Lean kernel; Rust's f64 Display (shortest round-trip decimal) supplies the decimal text the model works on; bridging assumption '(N as f64 / 1e4).to_string() is the exact decimal of N/10^4 for N < 10^8' is validated by the lab (every fd case exercises it), not proved; IEEE arithmetic of sizes/throughputs is validated per case, not proved.",
+    assumptions=["f64 Display/FromStr and IEEE division are Rust's; Lean's Float is opaque to proof"],
+)
+
+prop(
+    "C16",
+    ["DivanModel.Props.C16"],
+    [lab("sort", 4000, 150000)],
+    level_text="Theorems on all byte strings: natural_cmp is a total preorder (reflexive, antisymmetric via swap, transitive) and digit runs compare by numeric value; argument names denoting integers are ordered by value; a strict comparator admits exactly one sorted permutation (so Rust's sort algorithm cannot matter) and --sortr is its exact reverse; sorting permutes. Tied to the code by the `sort` lab: pairs/triples through the real natural_cmp (laws re-evaluated on the implementation's own answers), comparator and sort_by over argument-name lists (ints, negatives, floats, text, mixed) x 3 attributes x 2 directions against the unique model order.",
+    level_note="Trusted: Lean kernel; Rust's f64 FromStr (the lab passes the parsed bits; only float comparison is modelled); slice::sort_by returns a sorted permutation for a total preorder and may panic otherwise (observed: F8). Tree-level sibling order is covered by the tree lab.",
+    assumptions=["f64 parsing is Rust's", "slice::sort_by contract"],
+)
